@@ -37,6 +37,21 @@ class OsDir:
         self.ctime = Adt('SystemTime', None, [_clock(ex, 'os_btime')])
 
 
+class OsSpecial:
+    """a directory entry that is neither a regular file nor a directory (a unix socket): hostile on-disk content"""
+    __slots__ = ('mtime', 'atime', 'ctime')
+
+    def __init__(self, ex):
+        self.mtime = Adt('SystemTime', None, [_clock(ex, 'os_mtime')])
+        self.atime = Adt('SystemTime', None, [_clock(ex, 'os_atime')])
+        self.ctime = Adt('SystemTime', None, [_clock(ex, 'os_btime')])
+
+
+class OsDangling(OsSpecial):
+    """a symbolic link whose target does not exist: the name is occupied, following it fails with ENOENT"""
+    __slots__ = ()
+
+
 class OsHandle:
     """std::fs::File"""
     __slots__ = ('node', 'pos', 'append', 'readable', 'writable')
@@ -83,18 +98,18 @@ class Osm:
                 return k, n
         return None, None
 
-    def lookup(self, path):
-        """-> ('ok', key, node) | ('err', kind)"""
+    def lookup(self, path, follow=True):
+        """-> ('ok', key, node) | ('err', kind); follow: resolve a final symbolic link (stat vs lstat)"""
         c = self.comps(path)
         # every proper prefix must be a directory
         for i in range(len(c)):
             k, n = self.find(c[:i])
-            if n is None:
+            if n is None or isinstance(n, OsDangling):
                 return ('err', 'NotFound', c)
             if not isinstance(n, OsDir):
                 return ('err', 'NotADirectory', c)
         k, n = self.find(c)
-        if n is None:
+        if n is None or (follow and isinstance(n, OsDangling)):
             return ('err', 'NotFound', c)
         return ('ok', k, n)
 
@@ -162,24 +177,35 @@ def metadata_of(n):
 
 @model(r'Path::metadata|std::fs::metadata::<.+>|Path::symlink_metadata|std::fs::symlink_metadata::<.+>')
 def m_metadata(ex, c, a, m):
-    r = osm(ex).lookup(a[0])
+    r = osm(ex).lookup(a[0], follow='symlink_metadata' not in c)
     if r[0] == 'err':
         return E(r[1])
     return Ok(metadata_of(r[2]))
+
+
+@model(r'(std::fs::)?Metadata::file_type')
+def m_metadata_file_type(ex, c, a, m):
+    return Adt('FileType', None, [d(a[0]).fields[0]])
+
+
+@model(r'(std::fs::)?FileType::(is_dir|is_file|is_symlink)')
+def m_file_type_is(ex, c, a, m):
+    n = d(a[0]).fields[0]
+    return {'is_dir': isinstance(n, OsDir), 'is_file': isinstance(n, OsFile), 'is_symlink': False}[m.group(2)]
 
 
 @model(r'(std::fs::)?Metadata::(is_dir|is_file|len|modified|created|accessed|last_modified)')
 def m_metadata_get(ex, c, a, m):
     n = d(a[0]).fields[0]
     op = m.group(2)
-    if not isinstance(n, (OsDir, OsFile)):
+    if not isinstance(n, (OsDir, OsFile, OsSpecial)):
         return NONE()                      # rust_embed::Metadata of the RustEmbed model
     if op == 'is_dir':
         return isinstance(n, OsDir)
     if op == 'is_file':
         return isinstance(n, OsFile)
     if op == 'len':
-        return len(n.data) if isinstance(n, OsFile) else 4096
+        return len(n.data) if isinstance(n, OsFile) else (0 if isinstance(n, OsSpecial) else 4096)
     return Ok({'modified': n.mtime, 'created': n.ctime, 'accessed': n.atime}[op])
 
 
@@ -218,7 +244,7 @@ def m_remove_dir(ex, c, a, m):
 @model(r'(std::fs::)?remove_file::<.+>')
 def m_remove_file(ex, c, a, m):
     o = osm(ex)
-    r = o.lookup(a[0])
+    r = o.lookup(a[0], follow=False)
     if r[0] == 'err':
         return E(r[1])
     if isinstance(r[2], OsDir):
@@ -273,6 +299,12 @@ def open_node(ex, path, create=False, truncate=False, write=False, append=False,
         if write or append or create:
             return E('IsADirectory')
         return Ok(OsHandle(n, readable=True))
+    elif isinstance(n, OsDangling):
+        if create or write or append:
+            raise Unmodelled('creating a file through a dangling symbolic link is outside the OS model')
+        return E('NotFound')
+    elif isinstance(n, OsSpecial):
+        raise Unmodelled('open(2) of a socket (ENXIO) is outside the OS model')
     if truncate:
         n.data = S()
     return Ok(OsHandle(n, append=append, readable=read, writable=write or append))
